@@ -601,12 +601,36 @@ def explore_c15(tier, seed):
                         ev["house"] = {f"{regs_[0]}|{cats_[0]}": tot_ * 0.5}
                         two = sorted(secs_[:2], reverse=True)
                         ev["reb_sectors"] = {two[0]: 0.7, two[1]: 0.3}
+                        if len(secs_) >= 3 and rng.random() < 0.6:
+                            # three shares whose floating-point sum depends on the order in which they are added
+                            three = rng.sample(secs_, 3)
+                            ev["reb_sectors"] = dict(zip(three, rng.choice([(0.1, 0.2, 0.7), (0.7, 0.2, 0.1), (0.1, 0.3, 0.6), (0.6, 0.1, 0.3)])))
                         ev["shares_series"] = rng.random() < 0.5
+            if i % 4 == 3:
+                # sector names that differ only by capitalisation, each with its own inventory duration / restoration time /
+                # capital ratio; one of the twins lists every dictionary in the reverse order
+                sc = scen.gen_scenario(s, rng.choice(["shocked", "eventfree"]), T=rng.choice([8, 12]), labels="case", n=rng.choice([3, 4]))
+                secs_c = scen.labels(sc["table"])[1]
+                durs = rng.sample([90, 60, 30, 10, 5, 3], len(secs_c))
+                sc["model"]["inventory_dict"] = dict(zip(secs_c, durs))
+                sc["model"]["inf_sect"] = None
+                if sc["model"]["class"] == "psi":
+                    sc["model"]["restoration_tau"] = dict(zip(secs_c, rng.sample([90, 60, 30, 10, 5, 3], len(secs_c))))
+                if sc["model"]["capital"]["kind"] in ("default", "dict"):
+                    sc["model"]["capital"] = {"kind": "dict", "values": dict(zip(secs_c, rng.sample([4, 2.5, 10, 1, 6, 3], len(secs_c))))}
             if known.match_scenario("C15", sc):
                 continue
             res["scenarios"] += 1
             bump(res, f"{sc['table']['kind']}/{sc['model']['capital']['kind']}/{len(sc['events'])}ev")
             base = paired.run_records(sc)
+            if i % 4 == 3:
+                try:
+                    twin_r, _mr = run_permuted(sc, {"rows": None, "cols": None, "ycols": None}, "reversed", None, rng.randrange(1 << 30))
+                    res["paired_runs"] += 1
+                    for v in paired.cmp_records("C15", base, twin_r, "every dictionary listed in the reverse order (bitwise)"):
+                        res["violations"].append({"violation": v, "scenario": sc, "perm": "dictionaries reversed"})
+                except Exception as e:
+                    viol(res, "C15", f"dictionaries listed in the reverse order fail: {type(e).__name__}: {str(e)[:150]}", case=scen.summarize(sc))
             perm, dict_order, capital_perm = permuted_twin(sc, rng)
             try:
                 twin, model = run_permuted(sc, perm, dict_order, capital_perm, rng.randrange(1 << 30))
